@@ -198,6 +198,7 @@ func c02Decos(base *XElem, thorough bool) []Deco {
 				ds = append(ds, Deco{Kind: 't', El: i, Pos: pos, Value: tv})
 				if ti == 4 && pos == 0 {
 					ds = append(ds, Deco{Kind: 't', El: i, Pos: pos, Value: "a<b&c", CData: true})
+					ds = append(ds, Deco{Kind: 't', El: i, Pos: pos, Value: "a<b&c", Split: 2})
 				}
 			}
 		}
